@@ -106,6 +106,25 @@ func writeEvidence(cfg CheckConfig, a *agg, wall time.Duration, violations, plan
 		"workers":              cfg.Procs,
 		"sum_run_wall_s":       float64(a.wallUS) / 1e6,
 	}
+	sweepPlanned := 0
+	for _, p := range ProfilesFor(cfg.Prop) {
+		if p.Sweep != nil {
+			sweepPlanned += p.Sweep(cfg.Tier)
+		}
+	}
+	if sweepPlanned > 0 {
+		cov["sweep_cases_planned"] = sweepPlanned
+		cov["sweep_cases_run"] = a.sweepRun
+		cov["sweep_note"] = "the deterministic sweep is enumerated completely when sweep_cases_run == sweep_cases_planned; the seeded part of the batch is sampling"
+		cov["exhaustive"] = false
+	}
+	if zeroProbes == nil {
+		zeroProbes = []string{}
+	}
+	cov["probes_stuck_at_zero"] = zeroProbes
+	if replays == nil {
+		cov["replays"] = []string{}
+	}
 	if len(a.states) > 0 {
 		cov["states"] = len(a.states)
 		cov["transitions"] = len(a.trans)
